@@ -11,6 +11,12 @@ use std::time::Instant;
 
 pub const VERIF_DIR: &str = "/verif";
 
+/// where evidence/ and replays/ are written: /verif, unless VERIF_OUT redirects a sensitivity
+/// experiment (a run against a deliberately broken scratch copy must not touch real evidence)
+pub fn out_dir() -> PathBuf {
+    std::env::var("VERIF_OUT").map(PathBuf::from).unwrap_or_else(|_| PathBuf::from(VERIF_DIR))
+}
+
 // ------------------------------------------------------------------------------------------
 // cases and failures
 
@@ -641,7 +647,7 @@ pub fn check_main(engine: &dyn Engine, tier: Tier) -> i32 {
     viol.truncate(3);
     let mut reported = 0;
     let mut known_hits = 0;
-    let replays = Path::new(VERIF_DIR).join("replays");
+    let replays = out_dir().join("replays");
     let _ = std::fs::create_dir_all(&replays);
     let mut lines: Vec<String> = Vec::new();
     for v in viol {
@@ -730,7 +736,7 @@ pub fn check_main(engine: &dyn Engine, tier: Tier) -> i32 {
         "violations": reported,
         "harness_errors": harness_errors,
     });
-    let evdir = Path::new(VERIF_DIR).join("evidence");
+    let evdir = out_dir().join("evidence");
     let _ = std::fs::create_dir_all(&evdir);
     let evp = evdir.join(format!("{}.json", prop));
     if let Err(e) = std::fs::write(&evp, serde_json::to_string_pretty(&ev).unwrap()) {
